@@ -312,12 +312,12 @@ def long_subject_lines(thorough):
         grp = (b"(a*)" if ere else b"\\(a*\\)")
         fam = [  # (pattern, subject builder)
             (b"a*", A), (b"a" + plus, A), (b"^a" + plus + b"$", A), (b"^a" + plus + b"$", lambda n: A(n) + b"b"),
-            (b"a*b", lambda n: A(n) + b"b"), (b"a*b", lambda n: A(n) + b"b" * n), (b"a*b*", lambda n: A(n) + b"b" * n),
+            (b"a*b", lambda n: A(n) + b"b"), (b"a*b", lambda n: A(n) + b"bbb"), (b"a*b*", lambda n: A(n) + b"b" * 40),
             (b"x.*y", lambda n: b"x" + A(n) + b"y"), (b"x.*y", lambda n: b"x" + A(n)), (b"x.*", lambda n: b"x" + A(n - 1) + b"\n" + A(5)),
             (b"[ab]*c", lambda n: A(n // 2) + b"b" * (n - n // 2) + b"c"), (b"[^b]*", A), (grp, A), (grp + b"b", lambda n: A(n) + b"b"),
             (b"a" + two, A), (b"A" + two, A), (b"a" + near[0], A), (b".", A)]
         fam += [(b"." + near[0] + b"$", lambda n: A(min(n, 32770))), (b"[ab]" + near[1] + b"c", lambda n: A(min(n, 32770)) + b"c")]
-        heavy = (b"a*b*",)          # two long runs: the list-based reference needs minutes beyond 2 x 32770 bytes
+        heavy = (b"a*b*",)          # the list-based reference is slow here: thorough tier only, two lengths
         if not thorough:
             # quick tier: the two lengths at the limit, ERE, the patterns that tell "unbounded" from "32767"
             if ere:
@@ -326,11 +326,11 @@ def long_subject_lines(thorough):
                         lines.append(xline(EXT, pat, [0, 1, 2], [0], [mk(32767), mk(32768)]))
             continue
         for i, (pat, mk) in enumerate(fam):
-            lens = LONG_QUICK + (LONG_MORE if pat in (b"a*", b"x.*y", b"a*b", b"^a" + plus + b"$") else [])
+            lens = LONG_QUICK + (LONG_MORE if ere and i in (0, 4, 7) else [])
             if pat in heavy:
                 lens = [32767, 32768]
             subs = [mk(n) for n in lens]
-            for cf in ((0, ICASE | NEWLINE) if i % 2 else (0, ICASE)) if i < 8 else (0,):
+            for cf in ((0, ICASE | NEWLINE) if i % 2 else (0, ICASE)) if i < 6 else (0,):
                 lines.append(xline(cf | (EXT if ere else 0), pat, [0, 1, 2], [0], subs))
     return lines
 
@@ -972,8 +972,11 @@ def run(ck):
     ck.assumptions += [
         "C locale (the harness never calls setlocale): ctype classes as in lean/Usual/C04/Parse.lean",
         "LP64: strtoul saturates at 2^64-1",
-        "subjects and patterns contain no NUL byte and are shorter than MAX_COUNT=32767 (the C code caps group "
-        "iterations at 32767, the model's unbounded repetition is unbounded)",
+        "subjects and patterns contain no NUL byte; unbounded repetition of a simple atom (literal, '.', bracket) is unbounded in "
+        "the C code, the model and the reference, and is exercised up to 70000-byte subjects (family long-subject); a "
+        "repeated GROUP is capped at 32767 iterations by the C code (and its model) while the reference is unbounded: no "
+        "generated case needs more than 32767 iterations of a group.  cmatch_refines_llmatch is PROVED for |subject| < 32767; "
+        "for longer subjects the agreement of C code, model and reference rests on the differential run alone",
         "back-references and REG_RELAXED escapes are outside the property's syntax (model answers `unsup`, only "
         "crash/leak freedom is checked there)",
         "executions stopped by the per-exec %d ms alarm are excluded (no complexity clause)" % ALARM_MS,
@@ -988,7 +991,8 @@ def run(ck):
         "nodes with bracket expressions/high bytes/escaped specials and subjects up to 40; byte mutations of rendered "
         "patterns and hand-made members of every regerror class; family class-sweep (every named class of ctype_list plain/negated/"
         "combined, ERE and BRE, with/without REG_ICASE and REG_NEWLINE, against every one-byte subject 1..255 and strings sweeping the "
-        "ASCII range incl. all control characters); AT&T table.  A case is distinct = (cflags, pattern "
+        "ASCII range incl. all control characters); family long-subject (subjects of 32766..70000 bytes x unbounded and near-limit "
+        "repetitions of simple atoms, ERE/BRE, ICASE/NEWLINE, nmatch 0/1/2; quick tier: 32767 and 32768 bytes); AT&T table.  A case is distinct = (cflags, pattern "
         "bytes); non-trivial = compiles and is executed on at least one subject")
     rng = vf.SplitMix(ck.seed)
     rn = Runner(ck, hcmd, dcmd)
